@@ -6,4 +6,4 @@ Separate Extraction
   kind sref tfra traf topbox sidx fragment segment file opts
   assemble add_children empty_file encode_file encode_segment_mode
   frag_media sidx_starts
-  update_sidx seg_size.
+  update_sidx update_sidx_pinned seg_size enc_ref_word dec_ref_word u32.
